@@ -28,7 +28,8 @@ entry points perform.
 * BEFORE ece2934 (`keepPlus := true`): `reused_like_fresh_before_false` — with `plus` left set by a
   failed call, `[x "a"]` parsed to `["xa"]` (finding C07sen-plus-not-reset), and `plus_survived_before`.
 
-NOT a theorem: the tokenizer profile (false as it is, see the end of the file), the Reuse map recycling, that
+NOT a theorem: the tokenizer profile (only the repaired witness of f540857, see the end of the file), the Reuse
+map recycling, that
 the Go code behaves like the model. These are decided by the correspondence run: random call histories on
 one sen.Parser / one sen.Tokenizer, each call compared with a fresh instance and with the model. -/
 namespace OjgVerif.C07sen
@@ -41,7 +42,7 @@ def parserResetsModelled : List String :=
    "starts", "tmp"]
 
 /-- the same for sen.Tokenizer -/
-def tokenizerResetsModelled : List String := ["handler", "line", "mi", "mode", "noff", "starts", "tmp"]
+def tokenizerResetsModelled : List String := ["exkey", "handler", "line", "mi", "mode", "noff", "starts", "tmp"]
 
 /-- every field the model resets is assigned by the Go entry point on every path (regenerated facts) -/
 theorem resets_cover :
@@ -51,10 +52,10 @@ theorem resets_cover :
     (tokenizerResetsModelled.all fun f => Gen.SenFacts.tokLoadResets.contains f) = true := by
   decide +kernel
 
-/-- and the Go entry points reset nothing else: `lastKey`, `quoteDelim`, `ri`, `rn`, `exkey` are not in
-the regenerated lists -/
+/-- and the Go entry points reset nothing else: `lastKey`, `quoteDelim`, `ri`, `rn` are not in the
+regenerated lists (`exkey` is reset by `Tokenizer.Parse`/`Load` since f540857: `resets_cover`) -/
 theorem not_reset :
-    (["lastKey", "quoteDelim", "ri", "rn", "exkey"].all fun f =>
+    (["lastKey", "quoteDelim", "ri", "rn"].all fun f =>
       !Gen.SenFacts.parseResets.contains f && !Gen.SenFacts.parseReaderResets.contains f &&
       !Gen.SenFacts.tokParseResets.contains f && !Gen.SenFacts.tokLoadResets.contains f) = true := by
   decide +kernel
@@ -181,25 +182,28 @@ def tokenizer_reused_like_fresh_full (cfg : Cfg) : Prop :=
     (match call refTables cfg prev chunks with | .ok _ => true | .error _ => false) =
     (match run refTables cfg chunks with | .ok _ => true | .error _ => false)
 
-/-- **false for the code as it is** (finding C07sen-tokenizer-exkey-not-reset): `Tokenizer.Parse`/`Load` do
-not reset `exkey` (`not_reset`), so on an instance that a failed call (`{`) left expecting a member name
-`[a b]` is "expected a key" -/
-theorem tokenizer_reused_like_fresh_full_false : ¬ tokenizer_reused_like_fresh_full { tokenizer := true } := by
+/-- BEFORE f540857 (`keepExkey := true`) it was **false** (finding C07sen-tokenizer-exkey-not-reset):
+`Tokenizer.Parse`/`Load` did not reset `exkey`, so on an instance that a failed call (`{`) left expecting a
+member name `[a b]` was "expected a key" -/
+theorem tokenizer_reused_like_fresh_before_false :
+    ¬ tokenizer_reused_like_fresh_full { tokenizer := true, keepExkey := true } := by
   intro h
   have := h { exkey := true } [[91, 97, 32, 98, 93]]
   revert this
   decide +kernel
 
-/-- the reused outcome of that witness is the `expectedKey` error, and the token `a` is reported as a KEY -/
-example : (match call refTables { tokenizer := true } { exkey := true } [[91, 97, 32, 98, 93]] with
+/-- the reused outcome of that witness was the `expectedKey` error, and the token `a` was reported as a KEY -/
+example : (match call refTables { tokenizer := true, keepExkey := true } { exkey := true } [[91, 97, 32, 98, 93]] with
     | .error e => e.kind == .expectedKey | .ok _ => false) = true := by decide +kernel
 
-example : (match call refTables { tokenizer := true } { exkey := true } [[97]] with
+example : (match call refTables { tokenizer := true, keepExkey := true } { exkey := true } [[97]] with
     | .ok o => (match o.evs with | [.key k] => k == [97] | _ => false) | .error _ => false) = true := by decide +kernel
 
-/-- with the proposed repair (`exkey` reset at entry: `keepExkey := false`) the witness behaves like on a
-fresh tokenizer -/
-example : (match call refTables { tokenizer := true, keepExkey := false } { exkey := true } [[91, 97, 32, 98, 93]] with
-    | .ok _ => true | .error _ => false) = true := by decide +kernel
+/-- the code as it is (`exkey` reset at entry): the witness behaves like on a fresh tokenizer -/
+theorem tokenizer_exkey_witness_current :
+    (match call refTables { tokenizer := true } { exkey := true } [[91, 97, 32, 98, 93]] with
+      | .ok _ => true | .error _ => false) =
+    (match run refTables { tokenizer := true } [[91, 97, 32, 98, 93]] with | .ok _ => true | .error _ => false) := by
+  decide +kernel
 
 end OjgVerif.C07sen
